@@ -28,6 +28,10 @@ def run(ctx):
     from ..engines import labelkind as LK
     LK.k8_strategy_parent_pairing(ctx, modules=("specification_extrator", "rule_db.base"))
     ctx.floor("K8", 3)
+    # recomputation touches factory-made rules only under the handler that tells "does not apply"
+    from ..engines import provenance as PV
+    PV.a5_application_discipline(ctx, only={"RecomputingDict.__getitem__"})
+    ctx.floor("A5", 2)
     # ClassDB calls on the recomputation path must be total for never-labelled classes
     gi = ctx.P.need_method("RecomputingDict", "__getitem__", own=True)
     entry = set()
